@@ -687,7 +687,8 @@ func c19RunT(c *c19Case, limit time.Duration) {
 	}
 }
 
-var c19Subs = []string{"a", "b", "c", ""} // the empty id is legal (the parser accepts ["REQ","",{}])
+// the empty id is legal (the parser accepts ["REQ","",{}]); two ids longer than 64 bytes that share their first 64 bytes
+var c19Subs = []string{"a", "b", "c", "", strings.Repeat("s", 64) + "a", strings.Repeat("s", 64) + "b"}
 
 // Event.Kind is an int64 and the property quantifies over all histories: beside kinds of the
 // NIP-01 range (0..65535, with both ends) the universe holds kinds outside of it that agree
